@@ -41,6 +41,14 @@ def demo(wt, n):
         cmd = "cargo test --offline 2>&1" if has_tests else "cargo run --offline 2>&1"
         rc, out = sh(cmd, d)
         return rc, out[-1500:]
+    subs = sorted(x for x in os.listdir(d) if os.path.exists(os.path.join(d, x, "Cargo.toml")))
+    if subs:
+        worst, outs = 0, ""
+        for x in subs:
+            rc, out = sh("cargo test --offline 2>&1", os.path.join(d, x))
+            worst = max(worst, rc)
+            outs += f"[{x}] rc={rc}\n" + out[-700:]
+        return worst, outs[-1800:]
     return None, "no Cargo.toml in demo"
 
 
@@ -61,7 +69,7 @@ def main():
     built, passed, failed = suite(wt)
     rc1, out1 = demo(wt, n)
     sh("git checkout -- .", wt)
-    sh(f"rm -rf {wt}/seed_{n}_demo/target {wt}/target", wt)
+    sh(f"rm -rf {wt}/seed_{n}_demo/target {wt}/seed_{n}_demo/*/target {wt}/seed_demo_target {wt}/target", wt)
     confirmed = built and passed >= 99 and set(failed) <= {"tests::client::test_url_parser"} and rc0 == 0 and rc1 not in (0, None)
     print(f"== {pid}-{n}: builds={built} suite_passed={passed} suite_failed={failed} demo_clean_rc={rc0} demo_patched_rc={rc1} -> confirmed={confirmed}")
     if not confirmed:
